@@ -13,14 +13,18 @@ from .. import oracle as O
 RULE = ("Expressions from the bundled corpus, auto-corpus, dataset and the specification grammar (relative days, "
         "weekdays, days of month, day+month, parts of day, absolute dates, clock notations, ranges, durations) x "
         "prefix/suffix of 0-3 inert words x reference time of the corpus line or an edge date x latent on/off. "
-        "Inert words are built from a consonant alphabet and accepted only if, on the WHOLE generated text, every "
-        "match of the library's own patterns lies inside the extent of the expression (otherwise re-drawn; "
-        "rejection rate reported). Oracle (metamorphic): value(parse(prefix expr suffix)) = value(parse(expr)); "
+        "Inert words: consonant-alphabet words and words that begin like a pattern tail (uhrzeit, thx, pmq, tagebuch..), "
+        "accepted only if the library's own patterns match nothing in each word alone and in all context words "
+        "together (otherwise re-drawn; rejection rate reported); contexts of 0-3 and of 8-14 words. Oracle (metamorphic): value(parse(prefix expr suffix)) = value(parse(expr)); "
         "span = span(parse(expr)) shifted by len(N(prefix))+1; the span text has no leading/trailing blank and "
         "lies inside the expression. Non-trivial = distinct embedded cases whose expression ends in a token whose "
         "pattern allows trailing blanks (weekday, named hour, number/unit, clock) and that has a suffix.")
 
 ALPHA = "bcfgjklpqvwxz"
+# words that BEGIN like the optional tail of some pattern (uhr, h, am/pm, ordinal suffixes, units) but that no
+# pattern matches; which of them are really inert is decided at run time with the library's own patterns
+TAIL_WORDS = ["uhrzeit", "uhrwerk", "hxq", "hzz", "thx", "stq", "ndq", "rdz", "terq", "pmq", "amq", "tagebuch", "hourly", "daysx",
+              "mq", "wochenende", "oclockx", "nachtzug", "minutenx", "stundenplan", "monatlich", "weekly", "tenq", "oq", "pq"]
 TRAILING_TOKEN = re.compile(r"(montag|monday|mon|dienstag|tuesday|tue|mittwoch|wednesday|wed|donnerstag|thursday|thu|freitag|"
                             r"friday|fri|samstag|saturday|sat|sonntag|sunday|sun|one|two|three|four|five|six|seven|eight|nine|"
                             r"ten|eleven|twelve|eins|zwei|drei|vier|fünf|sechs|sieben|acht|neun|zehn|elf|zwölf|days?|tage?|"
@@ -41,17 +45,22 @@ def library_matches(text):
 
 
 def inert_ok(prefix, expr, suffix):
+    """The context words are inert iff the library's own patterns match nothing in them - each word alone and
+    all of them together (the text without the expression).  Deciding it on the text WITH the expression
+    would hide exactly the defects this property is about (a pattern tail swallowing the first letters of a
+    neighbouring word)."""
+    ctx = (prefix + " " + suffix).strip()
+    if ctx:
+        if library_matches(ctx)[1]:
+            return None
+        for w in ctx.split(" "):
+            if library_matches(w)[1]:
+                return None
     full = (prefix + " " if prefix else "") + expr + (" " + suffix if suffix else "")
-    t, spans = library_matches(full)
     nexpr = O.N(expr)
     off = len(O.N(prefix)) + 1 if prefix else 0
-    lo, hi = off, off + len(nexpr)
-    if t[lo:hi] != nexpr:
+    if O.N(full)[off:off + len(nexpr)] != nexpr:
         return None
-    for a, b in spans:
-        # trailing blanks of a match may reach beyond the expression; letters may not
-        if a < lo or len(t[:b].rstrip()) > hi:
-            return None
     return full, off, nexpr
 
 
@@ -71,6 +80,20 @@ def check(expr, ts, prefix, suffix, latent):
         return "skip", "expression-not-recognised-alone"
     va = O.value(alone.resolution)
     where = ("prefix+suffix" if prefix and suffix else "prefix-only" if prefix else "suffix-only")
+    if latent:
+        # anchoring rewrites the value, never the span: compare with the un-anchored parse of the same text
+        try:
+            off_ = m.ctparse(expr, ts, timeout=0, latent_time=False)
+        except Exception as e:
+            return "fail", ("parse-raises(see C01):" + type(e).__name__, repr(e))
+        if off_ is not None and off_.resolution is not None:
+            vo = O.value(off_.resolution)
+            same_clock = (vo[0] == "T" and va[0] == "T" and None in vo[1:4] and vo[4:6] == va[4:6]) or \
+                (vo[0] == "I" and va[0] == "I" and vo[1] and vo[2] and va[1] and va[2] and None in vo[1][1:4]
+                 and vo[1][4:6] == va[1][4:6] and vo[2][5] == va[2][5])
+            if same_clock and (off_.resolution.mstart, off_.resolution.mend) != (alone.resolution.mstart, alone.resolution.mend):
+                return "fail", ("latent-anchoring-changes-the-span", "{!r}: span {} with latent_time, {} without".format(
+                    expr, (alone.resolution.mstart, alone.resolution.mend), (off_.resolution.mstart, off_.resolution.mend)))
     if inside is None or inside.resolution is None:
         return "fail", ("value-lost:" + where, "{!r} -> {} but {!r} -> nothing".format(expr, O.vstr(va), full))
     vi = O.value(inside.resolution)
@@ -123,7 +146,11 @@ def expressions():
              "eight o'clock", "quarter past eight", "halb acht", "midnight", "2019", "8am", "8 am", "1530h", "tomorrow 9:00 - 17:00",
              "friday 9-5", "5.10.2021 - 8.10.2021", "vor 8 Uhr", "after friday", "3 days", "two weeks", "eine nacht", "half an hour",
              "5.10.2021 for 3 days", "next friday 8pm", "heute abend", "morgen früh", "monday morning", "on the 5th at 8", "9 to 5",
-             "8-10", "22:00 - 2:00", "8pm", "noon", "12am", "friday", "sonntag", "drei", "2 nights"]
+             "8-10", "22:00 - 2:00", "8pm", "noon", "12am", "friday", "sonntag", "drei", "2 nights",
+             # date-less ranges whose span is wider than their two clock times (lead word, part of day)
+             "abends 8-9", "in the evening between 8 and 9", "from 8pm to 9pm", "between 8:00 and 9:30", "von 8 bis 9 uhr",
+             "zwischen 14 und 15 Uhr", "evening 8-10", "nachmittags 2 bis 4", "at 8pm", "um 20:15", "gegen 8 uhr", "around 8pm",
+             "1430", "morgen 0930", "am 12.03. 1900", "tomorrow 0930 - 1045"]
     for g in gram:
         out.append(("grammar", g, ref))
     _exprs = out
@@ -138,8 +165,12 @@ def _shard(arg):
     for e in ex:
         byorigin.setdefault(e[0], []).append(e)
     edges = O.edge_dates()
-    word = st.text(alphabet=ALPHA, min_size=3, max_size=7)
-    words = st.lists(word, min_size=0, max_size=3).map(" ".join)
+    tail_ok = [w for w in TAIL_WORDS if not library_matches(w)[1]] or ["qwv"]
+    acc.notes["tail-words-inert-alone:" + ",".join(tail_ok)] += 1
+    word = st.one_of(st.text(alphabet=ALPHA, min_size=3, max_size=7), st.text(alphabet=ALPHA, min_size=3, max_size=12),
+                     st.text(alphabet=ALPHA, min_size=3, max_size=7), st.sampled_from(tail_ok))
+    words = st.one_of(st.lists(word, min_size=0, max_size=3), st.lists(word, min_size=0, max_size=3),
+                      st.lists(word, min_size=8, max_size=14)).map(" ".join)
     strat = st.tuples(st.sampled_from(sorted(byorigin)).flatmap(lambda o: st.sampled_from(byorigin[o])),
                       words, words, st.booleans(), st.one_of(st.none(), st.sampled_from(edges)), st.integers(0, 2))
 
@@ -175,7 +206,7 @@ def run(ctx):
     shards = 32 if ctx.thorough else 16
     acc = core.pmap_acc(ctx.pid, _shard, [(ctx.pid, ctx.seed, n // shards, i) for i in range(shards)])
     return core.finish(ctx, acc, RULE, assumptions=[
-        "inertness is decided with the library's own patterns on the whole generated text (a word that is inert alone may be swallowed by a multi-word pattern)",
+        "inertness is decided with the library's own patterns on each context word alone and on the context without the expression",
         "expressions that are not recognised alone are skipped (counted in notes); expressions containing '#' are C10's business",
         "default options otherwise, timeout=0"], shrinker=_shrink)
 
